@@ -8,6 +8,7 @@ import (
 	"github.com/glebziz/fs_db/internal/model"
 	"github.com/glebziz/fs_db/internal/model/core"
 	"github.com/glebziz/fs_db/internal/model/sequence"
+	"github.com/glebziz/fs_db/internal/utils/vhook"
 )
 
 func (u *UseCase) UpdateTx(ctx context.Context, oldTxId, newTxId string, filter model.FileFilter) (deleteFiles []model.File, err error) { //nolint:funlen,cyclop,lll // TODO fix
@@ -67,6 +68,7 @@ func (u *UseCase) UpdateTx(ctx context.Context, oldTxId, newTxId string, filter 
 	if err != nil {
 		return
 	}
+	vhook.AtID("core.updatetx.checked", oldTxId)
 
 	if len(files) == 0 {
 		return
@@ -82,11 +84,13 @@ func (u *UseCase) UpdateTx(ctx context.Context, oldTxId, newTxId string, filter 
 	err = u.fileRepo.RunTransaction(ctx, func(ctx context.Context) error {
 		for i := range files {
 			files[i].Seq = sequence.Next()
+			vhook.AtSeq("core.updatetx.seq", uint64(files[i].Seq))
 			err = u.fileRepo.Set(ctx, files[i])
 			if err != nil {
 				return fmt.Errorf("store to tx: %w", err)
 			}
 		}
+		vhook.AtID("core.updatetx.txnend", oldTxId)
 
 		return nil
 	})
@@ -97,6 +101,7 @@ func (u *UseCase) UpdateTx(ctx context.Context, oldTxId, newTxId string, filter 
 	for _, f := range files {
 		u.storeToTx(newTx, f)
 	}
+	vhook.AtID("core.updatetx.published", oldTxId)
 
 	files = nil
 	return
